@@ -20,6 +20,18 @@ CLAIMED = {
              "./check selftest). Int/Real quantifiers range over explicit finite domains. Nothing is "
              "claimed beyond the enumerated depth/width.",
         design="§3 C01"),
+    "C02": dict(
+        category="exploration",
+        technique="bounded-exhaustive enumeration of quantifier-free UF-free terms x all total and partial "
+                  "assignments over finite pools (all operand values for every BV operator at widths 1-3/4), "
+                  "compared with an independent reference evaluator",
+        text="For every term of the profiles and every assignment of pool constants to its symbols, "
+             "EagerModel.get_value/[]/get_py_value/satisfies are compared with the reference value; every "
+             "non-empty subset of symbols is deleted to check completion defaults and the no-completion "
+             "contract. Exhaustive within the bound.",
+        note="Trusted: mc/core/refsem.py. Pools: Int -2..3, Real 6 values, all BV values of the width, corner "
+             "strings, small canonical arrays. Nothing is claimed for widths > 4 or depth > 2.",
+        design="§3 C02"),
 }
 
 PENDING = {}
@@ -27,7 +39,7 @@ for i in range(1, 21):
     PENDING["C%02d" % i] = "check designed in DESIGN.md §3 but not built yet in this revision; no claim is made"
 
 ENGINES = [
-    dict(name="sweep", path="mc/core/sweep.py", serves_properties=["C01"],
+    dict(name="sweep", path="mc/core/sweep.py", serves_properties=["C01", "C02"],
          kind_free_text="sharded bounded-exhaustive term enumeration (termgen) + reference semantics (refsem)"),
 ]
 
